@@ -4,7 +4,7 @@
    label sequences of the LTS. *)
 From Coq Require Import List ZArith Bool.
 Import ListNotations.
-From Goat Require Import Model.Proxy Proofs.ProxyProofs.
+From Goat Require Import Model.Proxy Proofs.ProxyProofs Proofs.ProxyOrder Proofs.ProxyWire Proofs.ProxyMeasure.
 Open Scope Z_scope.
 
 (* source: whatever is forwarded has a header and the source under which its sender is attached; and nothing
@@ -85,6 +85,33 @@ Theorem C17_shutdown : forall cf ls s, lrun cf init ls = Some s -> cancelled s =
 Proof. exact C17_shutdown_l. Qed.
 Print Assumptions C17_shutdown.
 
+(* ---------- the two (Q) theorems over maximal continuations (termination: Props/C16.v C16_measure) ---------- *)
+(* shutdown: once the context is cancelled a maximal continuation by internal rules exists, none is longer than the
+   measure, and EVERY one ends without any goroutine of the proxy - provided the transports of the final state honour
+   their context and no newConnection call is outstanding in it (that goroutine is inside the user's callback).
+   The table is NOT emptied by a shutdown, in the code as in the model: the forwarding loop, which alone removes
+   entries, is gone. *)
+Theorem C17_shutdown_terminates : forall cf ls s, lrun cf init ls = Some s -> cancelled s = true ->
+  (exists ns s', lrun cf s (ints ns) = Some s' /\ quiescent cf s' = true /\ (length ns <= measure s)%nat) /\
+  forall ns s', lrun cf s (ints ns) = Some s' -> quiescent cf s' = true ->
+    (forall i c, nth_error (clients s') i = Some c -> p_honour c = true /\ dial_pending c = false) ->
+    fw s' = false /\ forall i c, nth_error (clients s') i = Some c -> client_alive c = false.
+Proof. exact C17_shutdown_terminates_l. Qed.
+Print Assumptions C17_shutdown_terminates.
+
+(* errors reported: while the context is live, at the end of EVERY maximal continuation by internal rules the
+   forwarding loop runs, nobody is left offering an envelope or an error, and every record one of whose loops has
+   ended (or whose dial failed) has been reported to the callback and has lost its table entry *)
+Theorem C17_errors_reported_run : forall cf ls s, lrun cf init ls = Some s -> cancelled s = false ->
+  forall ns s', lrun cf s (ints ns) = Some s' -> quiescent cf s' = true ->
+    fw s' = true /\
+    forall i c, nth_error (clients s') i = Some c ->
+      p_rd c <> RDOfferErr /\ p_wr c <> WROfferErr /\ p_dl c <> DLOffer /\ (forall e, p_rd c <> RDOffer e) /\
+      ((p_rd c = RDDead \/ p_wr c = WRDead \/ (p_dl c = DLDead /\ p_rd c = RDIdle)) ->
+       discs i (log s') <> [] /\ p_reg c = false).
+Proof. exact C17_errors_reported_run_l. Qed.
+Print Assumptions C17_errors_reported_run.
+
 (* ---------- the hypotheses are satisfiable ---------- *)
 Definition cf0 : cfg := mkCfg 99 2 (fun _ d => Some d).
 (* a spoofed envelope and a header-less one are dropped, an honest one is forwarded *)
@@ -111,3 +138,12 @@ Proof.
   eexists. split. vm_compute. reflexivity. vm_compute. repeat split; try reflexivity.
   eexists. repeat split; reflexivity.
 Qed.
+
+(* non-vacuity of C17_errors_reported_run: the context is live, peer 2's Read has just failed; a maximal internal
+   continuation (read loop fails, forwarding loop handles the report, write loop ends) reports and removes it *)
+Example C17_ex_reported_run : exists s s',
+  lrun cf0 init [LExt (AAttach 1 true); LExt (AAttach 2 true); LExt (AFailRead 1)] = Some s /\ cancelled s = false /\
+  lrun cf0 s (ints [18; 15; 22]%nat) = Some s' /\ quiescent cf0 s' = true /\ fw s' = true /\
+  discs 1 (log s') = [(2, true)] /\ option_map p_reg (nth_error (clients s') 1) = Some false.
+Proof. eexists. eexists. split. vm_compute. reflexivity. split. vm_compute. reflexivity.
+  split. vm_compute. reflexivity. vm_compute. repeat split; reflexivity. Qed.
